@@ -558,4 +558,67 @@ theorem accept_iff (s : List Nat) :
     rw [e11, ← hg, if_neg (by omega), if_neg (by omega), if_neg (by omega), hi, hj]
     simp only [hxd, hyd]
 
+/-! ### case-insensitivity -/
+
+theorem upper_idem (c : Nat) : upper (upper c) = upper c := by
+  unfold upper
+  by_cases h : 97 ≤ c ∧ c ≤ 122
+  · rw [if_pos h, if_neg (by omega)]
+  · rw [if_neg h, if_neg h]
+
+theorem upper_eq_zero (c : Nat) : upper c = 0 ↔ c = 0 := by
+  unfold upper
+  by_cases h : 97 ≤ c ∧ c ≤ 122
+  · rw [if_pos h]; omega
+  · rw [if_neg h]
+
+theorem lookup_upper (tbl : List Char) (c : Nat) : lookup tbl (upper c) = lookup tbl c := by
+  unfold lookup
+  rw [upper_idem]
+  by_cases h : c = 0
+  · rw [if_pos ((upper_eq_zero c).mpr h), if_pos h]
+  · rw [if_neg (fun e => h ((upper_eq_zero c).mp e)), if_neg h]
+
+theorem isSpace_upper (c : Nat) : isSpace (upper c) = isSpace c := by
+  unfold upper
+  by_cases h : 97 ≤ c ∧ c ≤ 122
+  · rw [if_pos h]
+    have a : isSpace (c - 32) = false := by
+      unfold isSpace
+      have a1 : ¬ (c - 32 = 32) := by omega
+      have a2 : ¬ (c - 32 ≤ 13) := by omega
+      simp [a1, a2]
+    have b : isSpace c = false := by
+      unfold isSpace
+      have b1 : ¬ (c = 32) := by omega
+      have b2 : ¬ (c ≤ 13) := by omega
+      simp [b1, b2]
+    rw [a, b]
+  · rw [if_neg h]
+
+theorem readDigits_upper (tbl : List Char) (l : List Nat) : readDigits tbl (l.map upper) = readDigits tbl l := by
+  induction l with
+  | nil => rfl
+  | cons c cs ih => simp only [List.map_cons, readDigits, lookup_upper, ih]
+
+/-- **decoding is case-insensitive**: upper-casing every byte does not change the result -/
+theorem decodeInt_upper (s : List Nat) : decodeInt (s.map upper) = decodeInt s := by
+  have hf : (s.map upper).filter (fun c => !isSpace c) = (s.filter (fun c => !isSpace c)).map upper := by
+    rw [List.filter_map]
+    congr 1
+    apply List.filter_congr
+    intro c _
+    simp [Function.comp, isSpace_upper]
+  unfold decodeInt
+  simp only [hf, List.length_map]
+  have g0 : ∀ i, lookup letters (((s.filter (fun c => !isSpace c)).map upper).getD i 0) =
+      lookup letters ((s.filter (fun c => !isSpace c)).getD i 0) := by
+    intro i
+    rw [List.getD_eq_getElem?_getD, List.getD_eq_getElem?_getD, List.getElem?_map]
+    cases h : (s.filter (fun c => !isSpace c))[i]? with
+    | none => rfl
+    | some c => simp [lookup_upper]
+  rw [g0 0, g0 1]
+  simp only [← List.map_drop, ← List.map_take, readDigits_upper]
+
 end GeoVerif.OSGBInt
